@@ -377,7 +377,14 @@ class Sem:
                 arr = np.transpose(arr, order)
             return arr
         if isinstance(box, Scalar):
-            z = complex(box.array[0])
+            from discopy.quantum.gates import Sqrt
+            if isinstance(box, Sqrt):
+                # the amplitude of sqrt(z) is the principal root of its DATUM z (any sign, any
+                # phase), computed here; its doubled value is |root|^2 = |z|
+                import cmath
+                z = cmath.sqrt(complex(box.data))
+            else:
+                z = complex(box.array[0])
             return np.array(z if box.is_mixed else abs(z) ** 2, dtype=complex)
         if not box.is_mixed:
             if box.is_dagger:
